@@ -64,6 +64,8 @@ func (c *MsgCase) Family() string {
 		return "M2-extra"
 	case strings.HasPrefix(c.ID, "N"):
 		return "M2-nested-plural"
+	case strings.HasPrefix(c.ID, "W"):
+		return "M2-fingerprint-boundary"
 	case strings.HasPrefix(c.ID, "A"):
 		return "M2-msg-attributes"
 	case strings.HasPrefix(c.ID, "Y"):
